@@ -37,17 +37,34 @@ def isTomlPairs : List (Val × Val) → Bool
   | (k, v) :: rest => Json.isStr k && isToml v && isTomlPairs rest
 end
 
-/-- What the real serialiser of each format accepts (the ideal codec's `enc`). -/
+/-- What the real serialiser of each format accepts (the ideal codec's `enc`). JSON: str/int/float/
+    bool/None keys (`json.dump` writes them as strings), any float. -/
 def representable (f : Format) (d : Val) : Bool :=
   match f with
-  | .json => Json.isJson true d
+  | .json => Json.isJsonK false d
   | .yaml => isDoc d
   | .toml => match d with
     | .dict _ => isToml d
     | _ => false
 
+/-- The value-level codec of a format: `dec (enc d)` is what a write → read cycle gives back. For
+    JSON that is `d` with its keys coerced to the strings `json.dump` writes (`Json.coerceKeys`;
+    `Json.parse (Json.print o d) = coerceKeys d` is `json_roundtrip_coerce`). -/
 def idealFor (f : Format) : Codec Val :=
-  { enc := fun d => if representable f d then some d else none, dec := some }
+  { enc := fun d => if representable f d then some (if f = .json then Json.coerceKeys d else d) else none,
+    dec := some }
+
+/-- `indent` / `ascii` of a `jsonprint` request: `indent` absent → 2, `null` → `indent=None`, a
+    number → that indent; `ascii` absent → false. -/
+def jsonOptsOf (j : Json) : Except String Json.Opts := do
+  let ind ← match j.getObjVal? "indent" with
+    | .error _ => pure (some 2)
+    | .ok .null => pure none
+    | .ok n => do pure (some (← jsonNat? n))
+  let ascii ← match j.getObjVal? "ascii" with
+    | .error _ => pure false
+    | .ok b => b.getBool?
+  pure { ind := ind, ascii := ascii }
 
 /-- Errors: OutOfDomain / OutOfFuel are protocol-level rejects, never observations. -/
 def excResult {α} (f : α → Json) (r : Except Exc α) : Except String Json :=
@@ -86,15 +103,51 @@ def sobsToJson : SObs → Except String Json
     else if e.name == "OutOfFuel" then throw "out of fuel"
     else pure (Json.mkObj [("failed", e.toJson)])
 
+/-- `config.default_encoding` on the wire: absent or null = not set (`none`), else a string. -/
+def dfltOf (j : Json) (k : String) : Except String (Option String) :=
+  match j.getObjVal? k with
+  | .error _ => pure none
+  | .ok .null => pure none
+  | .ok (.str s) => pure (some s)
+  | .ok _ => throw s!"{k} must be null or a string"
+
+/-- The context arguments of the command line on the wire: null = `None`, else a list of strings. -/
+def argsOf (j : Json) : Except String (Option (List String)) := do
+  match ← j.getObjVal? "args" with
+  | .null => pure none
+  | .arr xs => pure (some (← xs.toList.mapM (·.getStr?)))
+  | _ => throw "args must be null or a list of strings"
+
+/-- An error of the model as an observation; OutOfDomain / OutOfFuel are protocol-level rejects. -/
+def errObs (e : Exc) : Except String Json :=
+  if e.name == "OutOfDomain" then throw ("out of domain: " ++ e.msg)
+  else if e.name == "OutOfFuel" then throw "out of fuel"
+  else pure (Json.mkObj [("err", e.toJson)])
+
 /-- ops:
     `fmtdoc`     {ctx, doc}                 → formatted document
     `fileformat` {format, ctx, doc}         → ObjectRewriter at value level (ideal codec)
                  … + {enc: {encoding?, encodingIn?, encodingOut?}, out: null|path} → file level: {ok, enc, target}
     `session`    {files, ops}               → `runSession`: observations of every op + the files afterwards
     `write`      {format, ctx}              → {path, payload} handed to the serialiser, or err
-    `writefetch` {format, ctx, ctx2}        → context after filewrite(ctx) then fetch(ctx2)
-    `parser`     {format, doc}              → file context parser on a file holding doc
-    `jsonprint`  {doc}                      → text of json.dump(doc, indent=2, ensure_ascii=False)
+    `writefetch` {format, ctx, ctx2, dflt?, dfltFetch?}
+                 FILE level (`fileWriteStored` into an empty file system, then `fetchStored`), ideal codec of the
+                 format. `ctx` / `ctx2` carry the step inputs (`fileWriteX` / `fetchX`, with their `encoding` entry
+                 where given — a string, or null for an explicit `None`). `dflt` = `config.default_encoding` while the
+                 write step runs (absent/null = not set), `dfltFetch` = while the fetch step runs (absent = `dflt`).
+                 → {"write": {"err": exc}} | {"write": {"ok": [[path, doc]], "enc": name}, "fetch": {"ok": ctx} | {"err": exc}}
+    `parser`     {format, doc}              → value level: the parser's top-level check on a file holding doc
+                 {format, ctx, args, dflt?, dfltParse?}
+                 FILE level: `fileWriteStored` (input in `ctx`, config default `dflt`) into an empty file system, then
+                 `fileParserArgs` = `get_parsed_context(args)` of the format's file context parser under config default
+                 `dfltParse` (absent = `dflt`). `args`: null (`None`) or a list of strings (joined with single spaces
+                 to the path). → {"write": {"err": exc}} |
+                 {"write": {"ok": [[path, doc]], "enc": name}, "parserEnc": name,
+                  "parser": {"ok": doc} | {"none": true} (the parser returned None) | {"err": exc}};
+                 `ctx: null` = no write step: the parser runs on an empty file system ("write" is then absent).
+    `jsonprint`  {doc, indent?, ascii?}     → text of json.dump(doc, indent=indent, ensure_ascii=ascii) (indent: nat | null;
+                                              defaults 2 / false) + `coerced`: the document with its keys as written
+                 (rejects documents outside `isJsonK true`: other key/node types, floats outside `fltOk`)
     `jsonparse`  {text}                     → json.loads(text): ok doc | bad | outside -/
 def handle (op : String) (j : Json) : Except String Json := do
   match op with
@@ -138,15 +191,17 @@ def handle (op : String) (j : Json) : Except String Json := do
     let ctx ← Ctx.ofJson (← j.getObjVal? "ctx")
     let ctx2 ← Ctx.ofJson (← j.getObjVal? "ctx2")
     let c := idealFor f
-    match fileWrite f c (fuelOf j) ctx [] with
-    | .error e =>
-      if e.name == "OutOfDomain" then throw ("out of domain: " ++ e.msg)
-      else if e.name == "OutOfFuel" then throw "out of fuel"
-      else pure (Json.mkObj [("write", Json.mkObj [("err", e.toJson)])])
+    let dflt ← dfltOf j "dflt"
+    let dfltFetch ← match j.getObjVal? "dfltFetch" with
+      | .error _ => pure dflt
+      | .ok _ => dfltOf j "dfltFetch"
+    match fileWriteStored f c (fuelOf j) ctx dflt [] with
+    | .error e => pure (Json.mkObj [("write", ← errObs e)])
     | .ok files =>
-      let r ← excResult Ctx.toJson (fetch f c (fuelOf j) ctx2 files)
-      pure (Json.mkObj [("write", Json.mkObj [("ok", Json.arr (files.map fun (p, v) =>
-              Json.arr #[Json.str p, v.toJson]).toArray)]), ("fetch", r)])
+      let r ← excResult Ctx.toJson (fetchStored f c (fuelOf j) ctx2 dfltFetch files)
+      pure (Json.mkObj [("write", Json.mkObj [("ok", Json.arr (files.map fun (p, s) =>
+              Json.arr #[Json.str p, s.text.toJson]).toArray),
+              ("enc", match files with | (_, s) :: _ => Json.str s.enc | [] => Json.null)]), ("fetch", r)])
   | "session" =>
     -- {files: [[path, doc]], ops: [{op, format, ctx, in?, out?}]}: `runSession` with the ideal codecs
     let fl ← (← (← j.getObjVal? "files").getArr?).toList.mapM fun p => do
@@ -163,13 +218,41 @@ def handle (op : String) (j : Json) : Except String Json := do
       ("files", Json.arr (r.1.map fun (p, v) => Json.arr #[Json.str p, v.toJson]).toArray)])
   | "parser" =>
     let f ← formatOf j
-    let d ← Val.ofJson (← j.getObjVal? "doc")
-    if !isDoc d then throw "not a document tree"
-    excResult Val.toJson (fileParser (idealFor f) d)
+    match j.getObjVal? "doc" with
+    | .ok dj =>
+      let d ← Val.ofJson dj
+      if !isDoc d then throw "not a document tree"
+      excResult Val.toJson (fileParser (idealFor f) d)
+    | .error _ =>
+      -- file level: {format, ctx | null, args, dflt?, dfltParse?}
+      let c := idealFor f
+      let dflt ← dfltOf j "dflt"
+      let dfltParse ← match j.getObjVal? "dfltParse" with
+        | .error _ => pure dflt
+        | .ok _ => dfltOf j "dfltParse"
+      let args ← argsOf j
+      let parse (files : Files (Stored Val)) : Except String Json :=
+        match fileParserArgs f c dfltParse args files with
+        | .error e => errObs e
+        | .ok none => pure (Json.mkObj [("none", true)])
+        | .ok (some v) => pure (Json.mkObj [("ok", v.toJson)])
+      match ← j.getObjVal? "ctx" with
+      | .null => pure (Json.mkObj [("parserEnc", Json.str (parserEnc f dfltParse)), ("parser", ← parse [])])
+      | cj =>
+        let ctx ← Ctx.ofJson cj
+        match fileWriteStored f c (fuelOf j) ctx dflt [] with
+        | .error e => pure (Json.mkObj [("write", ← errObs e)])
+        | .ok files =>
+          pure (Json.mkObj [("write", Json.mkObj [("ok", Json.arr (files.map fun (p, s) =>
+                  Json.arr #[Json.str p, s.text.toJson]).toArray),
+                  ("enc", match files with | (_, s) :: _ => Json.str s.enc | [] => Json.null)]),
+                ("parserEnc", Json.str (parserEnc f dfltParse)), ("parser", ← parse files)])
   | "jsonprint" =>
     let d ← Val.ofJson (← j.getObjVal? "doc")
-    if !Json.isJson true d then throw "not in the JSON domain"
-    pure (Json.mkObj [("text", Json.str (String.ofList (Json.print d)))])
+    if !Json.isJsonK true d then throw "not in the JSON domain"
+    let o ← jsonOptsOf j
+    pure (Json.mkObj [("text", Json.str (String.ofList (Json.print o d))),
+                      ("coerced", (Json.coerceKeys d).toJson)])
   | "jsonparse" =>
     let t ← (← j.getObjVal? "text").getStr?
     pure (prToJson (Json.parse t.toList))
